@@ -315,7 +315,7 @@ def run_large(rec, tier, seed):
                 rec.violation("pairwise_annotations_spacing:wrong:large", dict(fn="pairwise_annotations_spacing", rows=n, max_distance=md, symmetric=sym, generator="rs(23+seed)"),
                               observed=y if st != "ok" else None)
     # kmers on long sequences (counts above 255 and above 65535 for k=1), several rows
-    for (A_, k, L) in ((4, 1, 70000), (4, 3, 5000), (2, 4, 3000), (3, 2, 300)):
+    for (A_, k, L) in ((4, 1, 70000), (4, 3, 5000), (2, 4, 3000), (3, 2, 300), (4, 2, (1 << 20) + 9)):
         codes = rs.randint(0, A_, (3, L))
         Xk = ohe(codes, A_)
         words = all_codes(A_, k)
